@@ -9,7 +9,7 @@ REPO = os.environ.get("VERIF_REPO", "/repo")
 
 SEARCHERS = {
     "C01": {"file": "search/container.rs", "mode": "integration", "env": {"VERIF_SEARCH": "c01"}},
-    "C06": {"file": "search/container.rs", "mode": "integration", "env": {"VERIF_SEARCH": "c01"}},
+    "C06": {"file": "search/container.rs", "mode": "integration", "env": {"VERIF_SEARCH": "c06"}},
     "C11": {"file": "search/container.rs", "mode": "integration", "env": {"VERIF_SEARCH": "c11"}},
     "C13": {"file": "search/container.rs", "mode": "integration", "env": {"VERIF_SEARCH": "c13"}},
     "C10": {"file": "search/codec.rs", "mode": "append", "target": "src/cabac_codec.rs"},
